@@ -431,7 +431,15 @@ fn serialise_router_advertisement(a: &RtrAdvertisement) -> Vec<u8> {
                 v.serialise(saturating_secs_u32(&prefix.valid));
                 v.serialise(saturating_secs_u32(&prefix.preferred));
                 v.serialise(0_u32);
-                v.serialise(&prefix.prefix);
+                /* RFC4861 Section 4.6.2: The bits in the prefix after the prefix length are
+                 * reserved and MUST be initialized to zero by the sender.
+                 */
+                let mask = u128::MAX
+                    .checked_shl(128_u32.saturating_sub(prefix.prefixlen.into()))
+                    .unwrap_or(0);
+                v.serialise(&std::net::Ipv6Addr::from(
+                    u128::from(prefix.prefix) & mask,
+                ));
             }
             NDOptionValue::RecursiveDnsServers((lifetime, servers)) => {
                 use std::convert::TryFrom as _;
